@@ -966,8 +966,16 @@ class ConstraintChain:
         tokens: list[str] = []
         current: list[str] = []
         depth = 0
+        in_quotes = False
+        prev = ""
         for ch in constraint_str:
-            if ch in ("[", "("):
+            # Brackets inside a quoted argument (REGEX["^[(]x$"]) are part of the argument, not nesting.
+            if ch == '"' and prev != "\\":
+                in_quotes = not in_quotes
+                current.append(ch)
+            elif in_quotes:
+                current.append(ch)
+            elif ch in ("[", "("):
                 depth += 1
                 current.append(ch)
             elif ch in ("]", ")"):
@@ -980,6 +988,7 @@ class ConstraintChain:
                 current = []
             else:
                 current.append(ch)
+            prev = ch
         # Flush the last token.
         token = "".join(current).strip()
         if token:
